@@ -345,6 +345,17 @@ def rule_from_valid(crate, prop, tier):
             acc = None
             if xy:
                 acc = xy[0] if xy[1] == ("const", "usize", 1) else xy[1] if xy[0] == ("const", "usize", 1) else None
+            if acc is not None and _fold_max_over(crate, an, acc, fields.get("arcs")):
+                # order = (maximum endpoint over the finished arc container) + 1
+                ins = _local_inserts(an)
+                o.check(len(ins) >= 1, pretty, "form-c-insert", "no arc is inserted")
+                for ev in ins:
+                    E = ev["args"][1]
+                    if E[0] == "agg" and len(E[3]) == 2:
+                        u, v = E[3]
+                        o.check(fx.holds(ev["b"], lambda rel: rel.has(mk_ne(u, v))), pretty, "form-c-no-self-loop",
+                                "an arc is inserted without a dominating tail != head check", ev["span"])
+                continue
             if o.check(acc is not None and acc[0] == "phi", pretty, "form-c-order", "order is not (running maximum + 1)"):
                 hb, var = acc[1], acc[2]
                 upd = None
@@ -386,6 +397,41 @@ def rule_from_valid(crate, prop, tier):
         rowloops = None
         if len(loops) != 1:
             rowloops = nested_row_loops(an, fx)
+        rowsum = None
+        if len(loops) != 1 and rowloops is None:
+            rowsum = row_summary_loop(an, fx)
+        if rowsum is not None:
+            # one loop over the rows; per row: the tail is no member, and the greatest member (last / last_key_value of the
+            # ordered row) is in range, or the row is empty
+            outer, u, row, lastcalls = rowsum
+            o.check(complete_scan(an, fx, outer), pretty, "form-b-all-arcs", "the validation loop over the rows can end early", outer["span"])
+            hb = an.cfg.loop_of(outer["b"])
+            for lb in [pb for pb, _ in an.cfg.pred[hb] if an.cfg.dominates(hb, pb)]:
+                def no_loop_row(rel):
+                    for a in rel.w:
+                        if a[0] == "notcontains" and a[1] == row and _value_of_ref(an, a[2]) == u:
+                            return True
+                        if a[0] == "false" and a[1][0] == "call" and a[1][1].split("::")[-1] in ("contains", "contains_key") \
+                                and len(a[1][3]) == 2 and a[1][3][0] == row and _value_of_ref(an, a[1][3][1]) == u:
+                            return True
+                    return False
+                o.check(fx.holds(lb, no_loop_row), pretty, "form-b-no-self-loop", "a row of the input is accepted without checking that "
+                        "it does not contain its own index")
+
+                def greatest_ok(rel):
+                    for X in lastcalls:
+                        if rel.variant(X) == "None":
+                            return True
+                        for a in rel.w:
+                            if a[0] == "lt" and _mentions(a[1], ("dc", X, "Some")):
+                                return True
+                    return False
+                o.check(bool(lastcalls) and fx.holds(lb, greatest_ok), pretty, "form-b-head-in-range",
+                        "a row of the input is accepted without checking that its greatest head is a vertex")
+            for rb in an.cfg.returns:
+                o.check(an.cfg.dominates(outer["b"], rb), pretty, "form-b-validated-before-return",
+                        "the literal can be returned without being validated")
+            continue
         if not o.check(len(loops) == 1 or rowloops is not None, pretty, "form-b-loop",
                        "no validation loop over the arcs of the freshly built value (neither `for (u, v) in value.arcs()` nor "
                        "nested loops over every row and every head)"):
@@ -455,7 +501,23 @@ def arc_streams(crate, an, fx):
                 # a closure that can only return normally or panic visits every item
                 out.append({"an": can, "item": ("arg", 2), "complete": True, "span": ev["span"],
                             "inside": (lambda e, can=can: e in can.events), "ev": ev})
+        if ev["k"] == "call" and ev["key"] == "core::iter::traits::iterator::Iterator::fold" and len(ev["args"]) == 3:
+            # d.arcs().fold(acc, |mut acc, arc| { ..; acc }): every arc is visited; the closure must hand the accumulator on
+            src, init, clo = ev["args"]
+            if src in results and clo[0] == "agg" and clo[1] == "closure":
+                can = crate.an(clo[2])
+                rets = [e for e in can.events if e["k"] == "return"]
+                hands_on = bool(rets) and all(_is_param_value(can, e["val"], 2) for e in rets)
+                out.append({"an": can, "item": ("arg", 3), "complete": hands_on, "span": ev["span"],
+                            "inside": (lambda e, can=can: e in can.events), "ev": ev})
     return out
+
+
+def _is_param_value(can, t, n):
+    """t is the (possibly mutated in place) value of parameter n of the closure"""
+    if t == ("arg", n):
+        return True
+    return t[0] == "mem" and t[1] == "L%d" % n and t[3] is None
 
 
 def arcs_loops_of(an, fx):
@@ -519,6 +581,25 @@ def nested_row_loops(an, fx):
     return None
 
 
+def row_summary_loop(an, fx):
+    """(outer next event, u, row, [calls giving the greatest member of the row]) for
+    `for (u, row) in rows.iter().enumerate() { .. row.last() / row.last_key_value() .. }` without an inner loop"""
+    nexts = [ev for ev in an.events if ev["k"] == "call" and ev["key"] == ITER_NEXT]
+    for outer in nexts:
+        d = fx.iter_desc(outer)
+        if not (d and d != "CYCLE" and d[0] == "call" and d[1] == "core::iter::traits::iterator::Iterator::enumerate"):
+            continue
+        oitem = ("field", ("dc", outer["res"], "Some"), "0")
+        u, row = mk_field(oitem, "0", 0), mk_field(oitem, "1", 1)
+        body = an.cfg.loops.get(an.cfg.loop_of(outer["b"]), set())
+        if any(e is not outer and e["b"] in body for e in nexts):
+            continue
+        lasts = [e["res"] for e in an.events if e["k"] == "call" and e["b"] in body and e["args"] and e["args"][0] == row and e["key"] in (
+            "alloc::collections::btree::map::BTreeMap::last_key_value", "alloc::collections::btree::set::BTreeSet::last")]
+        return outer, u, row, lasts
+    return None
+
+
 def _value_of_ref(an, t):
     """value behind a reference-to-local argument of a pure call"""
     if t[0] == "at" and t[2] is None:
@@ -572,6 +653,35 @@ def _refers_arg1(N):
 def _local_inserts(an):
     return [ev for ev in an.events if ev["k"] == "call" and ev["key"] in INSERT_KEYS and ev["args"]
             and ev["args"][0][0] == "addr" and ev["args"][0][1].startswith("L")]
+
+
+def _fold_max_over(crate, an, acc, arcs_field):
+    """acc is `arcs.iter().fold(0, |m, &(u, v)| m.max(u).max(v))` over the container that becomes the `arcs` field"""
+    if not (acc[0] == "call" and acc[1] == "core::iter::traits::iterator::Iterator::fold" and len(acc[3]) == 3):
+        return False
+    src, init, clo = acc[3]
+    if init != ("const", "usize", 0) or not (clo[0] == "agg" and clo[1] == "closure"):
+        return False
+    while src[0] == "call" and src[3] and src[1].split("::")[-1] in ("iter", "into_iter", "deref", "copied"):
+        src = src[3][0]
+    if not (src[0] == "at" and arcs_field is not None and arcs_field[0] == "mem" and arcs_field[1] == src[1] and arcs_field[2] == src[3]):
+        return False
+    can = crate.an(clo[2])
+    rets = [e for e in can.events if e["k"] == "return"]
+    if len(rets) != 1:
+        return False
+    leaves = []
+
+    def flat(t):
+        if t[0] == "max":
+            flat(t[1])
+            flat(t[2])
+        else:
+            leaves.append(t)
+    flat(rets[0]["val"])
+    want = {("arg", 2), ("mem", "A3.0", ("e",), None), ("mem", "A3.1", ("e",), None)}
+    alt = {("arg", 2), ("field", ("arg", 3), "0"), ("field", ("arg", 3), "1")}
+    return set(leaves) in (want, alt)
 
 
 def _is_running_max(t, acc):
@@ -722,7 +832,7 @@ def row_index_of(an, fx, t, depth=0):
     return None
 
 
-def arc_insertions(crate, an, fx):
+def arc_insertions(crate, an, fx, toggles=False):
     """[(event, tail, head)] of arc insertions in a body (generator style)"""
     out = []
     for ev in an.events:
@@ -730,6 +840,9 @@ def arc_insertions(crate, an, fx):
             continue
         key = ev["key"]
         if key == "graaf::op::add_arc::AddArc::add_arc" and len(ev["args"]) == 3:
+            out.append((ev, ev["args"][1], ev["args"][2]))
+        elif toggles and key == "graaf::repr::adjacency_matrix::AdjacencyMatrix::toggle" and len(ev["args"]) == 3:
+            # flipping a cell inserts the arc when every cell is flipped at most once (the caller's obligation)
             out.append((ev, ev["args"][1], ev["args"][2]))
         elif key == "alloc::collections::btree::set::BTreeSet::insert" and len(ev["args"]) == 2:
             E = ev["args"][1]
@@ -781,6 +894,42 @@ def subst_phis(an, fx, t, pick, depth=0):
     return tuple(out)
 
 
+def _flat_pair_stream(crate, d):
+    """d is `range.flat_map(|u| ((u + 1)..hi).map(move |v| (u, v)))`: a stream of the pairs u < v"""
+    from .closures import capture_map
+    if not (d[0] == "call" and d[1].endswith("Iterator::flat_map") and len(d[3]) == 2):
+        return False
+    src, cl = d[3]
+    if not (src[0] == "agg" and src[1] == "adt" and src[2][0].endswith("ops::range::Range")):
+        return False
+    if not (cl[0] == "agg" and cl[1] == "closure"):
+        return False
+    an1 = crate.an(cl[2])
+    rets = [e for e in an1.events if e["k"] == "return"]
+    if len(rets) != 1:
+        return False
+    r1 = rets[0]["val"]
+    if not (r1[0] == "call" and r1[1].endswith("Iterator::map") and len(r1[3]) == 2):
+        return False
+    rng, cl2 = r1[3]
+    if not (rng[0] == "agg" and rng[1] == "adt" and rng[2][0].endswith("ops::range::Range")):
+        return False
+    xy = sum_parts(rng[3][0])
+    if not (xy and ("const", "usize", 1) in xy and ("arg", 2) in xy):
+        return False
+    if not (cl2[0] == "agg" and cl2[1] == "closure"):
+        return False
+    an2 = crate.an(cl2[2])
+    rets2 = [e for e in an2.events if e["k"] == "return"]
+    if len(rets2) != 1:
+        return False
+    r2 = rets2[0]["val"]
+    if not (r2[0] == "agg" and len(r2[3]) == 2 and r2[3][1] == ("arg", 2)):
+        return False
+    cm = capture_map(crate, an2)
+    return cm is not None and any(pv == ("arg", 2) and cv == r2[3][0] for pv, cv in cm.valmap)
+
+
 def rule_one_per_pair(crate, prop, tier):
     o = Obl("ONE-PER-PAIR")
     for p, nm, st in generator_impls(crate, True):
@@ -799,7 +948,8 @@ def rule_one_per_pair(crate, prop, tier):
                 found = True
                 o.check(len(draws) == 1, pretty, "single-draw", "more than one direction draw per pair", draws[0]["span"])
                 dr = draws[0]
-                ins = arc_insertions(crate, an, fx)
+                # each unordered pair is visited once and gets one insertion: a cell is flipped at most once
+                ins = arc_insertions(crate, an, fx, toggles=True)
                 # inner loop: v in (u+1)..order, outer: u
                 inner = None
                 for ev in an.events:
@@ -811,6 +961,14 @@ def rule_one_per_pair(crate, prop, tier):
                             if xy and ("const", "usize", 1) in xy:
                                 uu = xy[0] if xy[1] == ("const", "usize", 1) else xy[1]
                                 inner = (ev, uu, ("field", ("dc", ev["res"], "Some"), "0"))
+                if inner is None:
+                    # `for (u, v) in (0..order).flat_map(|u| ((u + 1)..order).map(move |v| (u, v)))`
+                    for ev in an.events:
+                        if ev["k"] == "call" and ev["key"] == ITER_NEXT and an.cfg.dominates(ev["b"], dr["b"]):
+                            d = fx.iter_desc(ev)
+                            if d and d != "CYCLE" and _flat_pair_stream(crate, d):
+                                item = ("field", ("dc", ev["res"], "Some"), "0")
+                                inner = (ev, ("field", item, "0"), ("field", item, "1"))
                 if not o.check(inner is not None, pretty, "pair-loop", "no loop `for v in (u + 1)..order` around the draw", dr["span"]):
                     continue
                 lev, u, v = inner
@@ -849,6 +1007,80 @@ def rule_one_per_pair(crate, prop, tier):
                         # modulus is the loop variable u (range 1..order) / closure parameter
             o.check(ok, pretty, "parent-is-rem-u", "the parent of u is not drawn as `x % u`")
     return o.report(floors={"seeded tournament / tree generators": (o.instances, 8)})
+
+
+# ---------------------------------------------------------------------------
+def rule_exact_ids(crate, prop, tier):
+    """C14: the deterministic generators compute vertex ids with exact arithmetic: a `wrapping_*` / `overflowing_*`
+    operation on usize is accepted only where the facts exclude the wrap-around (2^64 is not a multiple of the order, so
+    reducing a wrapped value `% order` is not the mathematical residue)."""
+    from .panics import no_overflow
+    o = Obl("EXACT-IDS")
+    WR = {"usize::wrapping_sub": "Sub", "usize::wrapping_add": "Add", "usize::wrapping_mul": "Mul",
+          "usize::overflowing_sub": "Sub", "usize::overflowing_add": "Add", "usize::overflowing_mul": "Mul",
+          "usize::wrapping_neg": "Neg"}
+    for p, nm, st in generator_impls(crate, False):
+        o.instances += 1
+        pretty = crate.prog.pretty[p]
+        clean = True
+        for bp in [p] + sorted(c for c in crate.fn_paths() if crate.prog.fns[c].get("root") == p and c != p):
+            an = crate.an(bp)
+            fx = crate.fx(bp)
+            for ev in an.events:
+                if ev["k"] != "call" or ev["key"] not in WR:
+                    continue
+                op = WR[ev["key"]]
+                ok = op != "Neg" and len(ev["args"]) == 2 and no_overflow(crate, an, fx, ev["b"], op, ev["args"][0], ev["args"][1])
+                if not ok:
+                    clean = False
+                    o.check(False, pretty, "wrapping-id-arithmetic", "%s can wrap around here: a vertex id computed from the wrapped value "
+                            "(e.g. reduced `%% order`) is not the id the definition names" % ev["key"].split("::")[-1], ev["span"])
+        if clean:
+            o.check(True, pretty, "exact-id-arithmetic", "")
+    return o.report(floors={"deterministic generators": (o.instances, 33)})
+
+
+# ---------------------------------------------------------------------------
+def rule_seed_total(crate, prop, tier):
+    """C15: a seeded generator is defined for every seed: no checked arithmetic (overflow assertion), checked
+    conversion or division whose operand derives from the `seed` parameter can panic.  Deriving per-thread seeds must
+    use wrapping arithmetic."""
+    from .closures import capture_map
+    o = Obl("SEED-TOTAL")
+    for p, nm, st in generator_impls(crate, True):
+        o.instances += 1
+        pretty = crate.prog.pretty[p]
+        an = crate.an(p)
+        seed = param_locals(an, ("seed",)).get("seed")
+        if seed is None:
+            u64s = [k for k in range(1, an.f["arg_count"] + 1) if an.f["locals"][k]["ty"].get("s") == "u64"]
+            seed = ("arg", u64s[0]) if len(u64s) == 1 else None
+        if not o.check(seed is not None, pretty, "seed-param", "cannot identify the seed parameter"):
+            continue
+        taint = {p: {seed}}
+        bodies = [p] + sorted(c for c in crate.fn_paths() if crate.prog.fns[c].get("root") == p and c != p)
+        clean = True
+        for bp in bodies:
+            ban = crate.an(bp)
+            if bp != p:
+                cm = capture_map(crate, ban)
+                par = crate.prog.fns[bp].get("parent")
+                pt = taint.get(par, set())
+                taint[bp] = {cv for pv, cv in (cm.valmap if cm else []) if any(_mentions(pv, t) or pv == t for t in pt)}
+            tset = taint[bp]
+            if not tset:
+                continue
+            for ev in ban.events:
+                if ev["k"] != "assert" or ev.get("kind") != "overflow":
+                    continue
+                ops = [v for v in (ev.get("detail") or {}).values() if isinstance(v, tuple)]
+                if any(_mentions(x, t) or x == t for x in ops for t in tset):
+                    clean = False
+                    o.check(False, pretty, "seed-arithmetic-can-panic", "checked arithmetic on a value derived from the seed: the generator "
+                            "panics for some seeds (derive per-thread seeds with wrapping_add)", ev["span"])
+        if clean:
+            o.check(True, pretty, "seed-arithmetic-total", "")
+    return o.report(floors={"seeded generators": (o.instances, 12)})
 
 
 # ---------------------------------------------------------------------------
